@@ -319,7 +319,7 @@ def replay(case):
         return dict(reproduced=None, detail="structural identity; see C04 for the value checks")
     else:
         r0 = pipeline.replay_pipeline(dict(case, kind="pipeline"))
-        if r0.get("reproduced"):
+        if r0.get("reproduced") or case.get("construct_only"):
             return r0
         base = r0.get("disorder")
         c_, D, de, per, pair = pipeline.real_setup(dict(case))
